@@ -187,3 +187,16 @@ Proof.
   intros Hn Hres Hg Hd Hc. destruct (holder_dangling SC H allow E f chain _ r g Hres Hd Hc) as [e [He Hm]].
   exists e. split; [|exact Hm]. apply (read_fields_required_err _ fd0 post d acc (r, g)); assumption.
 Qed.
+
+(** * where the full statement is false of the faithful model (open findings C18-b, C18-c) *)
+Definition no_hands : hand := {| h_read := fun _ _ _ => TErr (EBase 99); h_write := fun _ _ => TErr (EBase 99) |}.
+
+(* C18-c: a derived enum does not follow references: Option<enum> over a dangling reference is an error in strict mode *)
+Lemma enum_holder_refuted : exists E i, dangling E i /\
+  read gen_schemas no_hands false E 8 [] (TOption (TNameEnum 0)) (PRef i 0) <> TOk VNone.
+Proof. exists [XFree], 5. split; [left; reflexivity|]. vm_compute. discriminate. Qed.
+
+(* C18-b: a dangling element of a non-optional array is an error of the whole array (both option sets) *)
+Lemma container_element_refuted : exists E i, dangling E i /\ forall allow v,
+  read gen_schemas no_hands allow E 8 [] (TVec TI32) (PArr [PInt 1; PRef i 0]) <> TOk v.
+Proof. exists [XFree], 5. split; [left; reflexivity|]. intros [|] v; vm_compute; discriminate. Qed.
